@@ -407,6 +407,9 @@ static std::vector<Cfg> unit_cfgs(const Unit &u){
         for(int depth=0; depth<=maxdepth; depth++) for(auto &lim : LIM) for(int tr : trs){
             Cfg c; c.fam = u.fam; c.rule = u.rule; c.dims = d; c.outs = 0; c.depth = depth; c.order = u.order; c.limits = lim;
             if (tr == 1){ c.ta.assign(ta.begin(), ta.begin()+d); c.tb.assign(tb.begin(), tb.begin()+d); } if (tr == 2){ c.ta.assign(ta2.begin(), ta2.begin()+d); c.tb.assign(tb2.begin(), tb2.begin()+d); } out.push_back(c); }
+        // domains whose upper corner maps to 1 + 2e-16 in canonical coordinates ([0.5,3], [0.1,0.7]): the boundary belongs to the domain
+        if (g_prop == "C03") for(int depth : {1, 2}){ Cfg c; c.fam = u.fam; c.rule = u.rule; c.dims = d; c.outs = 0; c.depth = std::min(depth, maxdepth); c.order = u.order;
+            const double a3[3] = {0.5, 0.1, -2.0}, b3[3] = {3.0, 0.7, 1.0}; c.ta.assign(a3, a3 + d); c.tb.assign(b3, b3 + d); out.push_back(c); }
         return out;
     }
     std::vector<std::vector<int>> W1, Wc, LIM;
